@@ -10,6 +10,7 @@ the list regenerated from the sources in `Gen/FormatsInUse.lean`) and **every** 
 -/
 import AsmjitVerif.Spec.Offset
 import AsmjitVerif.Gen.FormatsInUse
+import AsmjitVerif.Lemmas.Bytes
 import Std.Tactic.BVDecide
 namespace AsmjitVerif.Offset
 
@@ -179,6 +180,108 @@ theorem formats_in_use_proved : ∀ f ∈ formatsInUse, f ∈ formatsProved := b
 /-- **C17, displacement part.** Every displacement format used by the backends is exact for every value. -/
 theorem offset_codec_exact : ∀ f ∈ formatsInUse, CodecExact f :=
   fun f hf => formatsProved_exact f (formats_in_use_proved f hf)
+
+/-! ### byte level: `write_offset` on a code buffer -/
+
+/-- **write_offset changes nothing but the value word.** -/
+theorem writeOffset_frame (buf buf' : Bytes) (pos : Nat) (off : BitVec 64) (f : OffsetFormat)
+    (h : writeOffset buf pos off f = some buf') :
+    buf'.length = buf.length ∧
+    (∀ i, (i < pos + f.valueOffset ∨ pos + f.valueOffset + f.valueSize ≤ i) → buf'[i]? = buf[i]?) ∧
+    ∃ old m : Nat, loadLE buf (pos + f.valueOffset) f.valueSize = some old ∧
+      (if f.valueSize = 8 then (encodeOffset64 f off).map (·.toNat) = some m
+       else (encodeOffset32 f off).map (fun x => x.toNat % 2 ^ (8 * f.valueSize)) = some m) ∧
+      loadLE buf' (pos + f.valueOffset) f.valueSize = some (old ||| m) := by
+  unfold writeOffset at h
+  simp only [] at h
+  split at h
+  · -- sizes 1, 2, 4
+    rename_i hsz
+    split at h
+    · rename_i m old hm hold
+      refine ⟨storeLE_length _ _ _ _ _ h, storeLE_outside _ _ _ _ _ h, old, m.toNat % 2 ^ (8 * f.valueSize), hold, ?_, ?_⟩
+      · have : f.valueSize ≠ 8 := by rcases hsz with h | h | h <;> omega
+        simp [this, hm]
+      · rw [loadLE_storeLE _ _ _ _ _ h]
+        congr 1
+        have hlt := loadLE_lt _ _ _ _ hold
+        have e : 256 ^ f.valueSize = 2 ^ (8 * f.valueSize) := by
+          rw [show (256 : Nat) = 2 ^ 8 by rfl, ← Nat.pow_mul]
+        rw [e] at hlt ⊢
+        apply Nat.mod_eq_of_lt
+        exact Nat.or_lt_two_pow hlt (Nat.mod_lt _ (Nat.two_pow_pos _))
+    · cases h
+  · split at h
+    · rename_i hsz
+      split at h
+      · rename_i m old hm hold
+        refine ⟨storeLE_length _ _ _ _ _ h, storeLE_outside _ _ _ _ _ h, old, m.toNat, hold, ?_, ?_⟩
+        · simp [hsz, hm]
+        · rw [loadLE_storeLE _ _ _ _ _ h]
+          congr 1
+          have hlt := loadLE_lt _ _ _ _ hold
+          apply Nat.mod_eq_of_lt
+          rw [hsz] at hlt ⊢
+          have e : (256:Nat) ^ 8 = 2 ^ 64 := by decide
+          rw [e] at hlt ⊢
+          exact Nat.or_lt_two_pow hlt m.isLt
+      · cases h
+    · cases h
+
+/-- the mask fits the value word: no bit above `8·valueSize` is ever produced (matters for sizes 1 and 2) -/
+theorem mask_fits_value_size : ∀ f ∈ formatsProved, f.valueSize ≠ 8 →
+    ∀ off m, encodeOffset32 f off = some m → m.toNat < 2 ^ (8 * f.valueSize) := by
+  intro f hf h8 off m hm
+  have hex := formatsProved_exact f hf
+  unfold CodecExact at hex
+  simp only [h8, if_false] at hex
+  have h0 := (hex.1 off m hm 0#32 (by simp)).2
+  -- m has no bit outside the field mask, and the field mask fits the value word
+  have hmask : (fieldMask32 f).toNat < 2 ^ (8 * f.valueSize) := by
+    simp only [formatsProved, List.mem_cons, List.mem_nil_iff, or_false] at hf
+    rcases hf with h | h | h | h | h | h | h | h | h | h | h | h | h <;> subst h <;> first | decide | (exfalso; exact h8 rfl)
+  have hle : m.toNat ≤ (fieldMask32 f).toNat := by
+    have h1 : m &&& ~~~ fieldMask32 f = 0#32 := by simpa using h0
+    have h2 : m &&& fieldMask32 f = m := by
+      generalize fieldMask32 f = x at h1
+      bv_decide
+    rw [← h2, BitVec.toNat_and]
+    exact Nat.and_le_right
+  omega
+
+/-- **C17 at byte level (32-bit path).** Patching a word whose field is zero, with any format in use: the patched
+word decodes to exactly the displacement, its other bits are the old ones, and no other byte changes. -/
+theorem write_exact32 (f : OffsetFormat) (hf : f ∈ formatsInUse) (h8 : f.valueSize ≠ 8)
+    (buf buf' : Bytes) (pos : Nat) (off : BitVec 64) (old : Nat)
+    (hw : writeOffset buf pos off f = some buf')
+    (hold : loadLE buf (pos + f.valueOffset) f.valueSize = some old)
+    (hzero : BitVec.ofNat 32 old &&& fieldMask32 f = 0#32) :
+    ∃ new, loadLE buf' (pos + f.valueOffset) f.valueSize = some new ∧
+      decode32 f (BitVec.ofNat 32 new) = off ∧
+      BitVec.ofNat 32 new &&& ~~~ fieldMask32 f = BitVec.ofNat 32 old ∧
+      buf'.length = buf.length ∧
+      ∀ i, (i < pos + f.valueOffset ∨ pos + f.valueOffset + f.valueSize ≤ i) → buf'[i]? = buf[i]? := by
+  obtain ⟨hlen, hout, old', m, hold', hm, hnew⟩ := writeOffset_frame buf buf' pos off f hw
+  rw [hold] at hold'; cases hold'
+  simp only [h8, if_false] at hm
+  cases he : encodeOffset32 f off with
+  | none => simp [he] at hm
+  | some mv =>
+    simp only [he, Option.map_some, Option.some.injEq] at hm
+    have hfp := formats_in_use_proved f hf
+    have hfit := mask_fits_value_size f hfp h8 off mv he
+    have hmm : m = mv.toNat := by rw [← hm]; exact Nat.mod_eq_of_lt hfit
+    have hex := formatsProved_exact f hfp
+    unfold CodecExact at hex
+    simp only [h8, if_false] at hex
+    have := hex.1 off mv he (BitVec.ofNat 32 old) hzero
+    refine ⟨old ||| m, hnew, ?_, ?_, hlen, hout⟩
+    · have e : BitVec.ofNat 32 (old ||| m) = BitVec.ofNat 32 old ||| mv := by
+        rw [hmm]; apply BitVec.eq_of_toNat_eq; simp [BitVec.toNat_or]
+      rw [e]; exact this.1
+    · have e : BitVec.ofNat 32 (old ||| m) = BitVec.ofNat 32 old ||| mv := by
+        rw [hmm]; apply BitVec.eq_of_toNat_eq; simp [BitVec.toNat_or]
+      rw [e]; exact this.2
 
 /-! non-vacuity: the hypotheses are met by concrete values on both sides of a range limit -/
 example : encodeOffset32 fImm19 (BitVec.ofInt 64 (-8)) = some 0x00ffffc0#32 := by decide
